@@ -211,12 +211,19 @@ func (s *Sched) pickOrAdvance(from *G) *G {
 				if timerOpt {
 					options++
 				}
-				if options > left+1 {
+				if !s.w.ex.Cfg.DelayAny && options > left+1 {
 					options = left + 1
 				}
 				if options > 1 {
 					i := s.w.path.choose(options)
-					s.delays += i
+					if s.w.ex.Cfg.DelayAny {
+						// (delay_any: running any other goroutine than the policy's choice costs one delay)
+						if i > 0 {
+							s.delays++
+						}
+					} else {
+						s.delays += i
+					}
 					if i >= len(rs) {
 						// fire the earliest timer although goroutines are runnable
 						s.fireEarliest()
